@@ -512,10 +512,11 @@ func (x *gen) loadToSaddr() {
 		k.vop2(opVAddU32, g.V(a), g.Imm(c), g.V(a))
 		k.vop2(opVAnd, g.V(a), g.Imm(chNodes-1), g.V(a))
 		k.vop2(opVLshl, g.V(a), g.Imm(4), g.V(a))
+		k.vop2(opVAddU32, g.V(a), immOrLit(x.ml.chOff), g.V(a)) // (the 13-bit immediate offset cannot hold it)
 		x.sload(2, X, sTAB, kp+8)
 		x.gapS()
 		k.nMem++
-		k.add(g.GlobalLoad(g.OpFlatLoadDwordx2, g.VRange(vL0, 2), g.V(a), g.SRange(X, 2), int64(x.ml.chOff+8*x.r.Intn(2))))
+		k.add(g.GlobalLoad(g.OpFlatLoadDwordx2, g.VRange(vL0, 2), g.V(a), g.SRange(X, 2), int64(8*x.r.Intn(2))))
 		k.add(g.Waitcnt(0, 7, 15))
 		x.foldV(vL0)
 		x.foldV(vL0 + 1)
